@@ -112,7 +112,11 @@ func (env *SpecEnv) eval(n *SNode) Val {
 		}
 		return TV(Term{fmt.Sprintf("(%s (%s) %s)", n.Kind, strings.Join(binders, " "), inner.S), SBool})
 	case "imp":
-		return TV(Implies(env.evalB(n.A), env.evalB(n.B)))
+		a := env.evalB(n.A)
+		if a.S == "false" {
+			return TV(TTrue) // lazy: the consequent may be undefined (e.g. result() of a call that did not happen)
+		}
+		return TV(Implies(a, env.evalB(n.B)))
 	case "iff":
 		return TV(Eq(env.evalB(n.A), env.evalB(n.B)))
 	case "cond":
@@ -605,10 +609,18 @@ func (env *SpecEnv) asInt(v Val) Term {
 func (env *SpecEnv) evalBinary(n *SNode, t *ast.BinaryExpr) Val {
 	switch t.Op {
 	case token.LAND:
-		a, b := env.evalGo(n, t.X), env.evalGo(n, t.Y)
+		a := env.evalGo(n, t.X)
+		if a.T.S == "false" {
+			return Val{K: VTerm, T: TFalse, Typ: types.Typ[types.Bool]}
+		}
+		b := env.evalGo(n, t.Y)
 		return Val{K: VTerm, T: And(a.T, b.T), Typ: types.Typ[types.Bool]}
 	case token.LOR:
-		a, b := env.evalGo(n, t.X), env.evalGo(n, t.Y)
+		a := env.evalGo(n, t.X)
+		if a.T.S == "true" {
+			return Val{K: VTerm, T: TTrue, Typ: types.Typ[types.Bool]}
+		}
+		b := env.evalGo(n, t.Y)
 		return Val{K: VTerm, T: Or(a.T, b.T), Typ: types.Typ[types.Bool]}
 	case token.EQL:
 		a, b := env.evalGo(n, t.X), env.evalGo(n, t.Y)
